@@ -1,0 +1,42 @@
+//go:build verif
+
+// Machine-checked contracts for this package (comment-only; compiled only under the
+// build tag `verif`, where it still contains no code). Checked by /verif/govc.
+package keeper
+
+// C12: Params.TotalCommitted[d] = Σ over accounts of the committed amount of d.
+//@ aggregate committedTotal(d) table commitment:types.GetCommitmentsKey row types.Commitments value committedOf(row, d)
+
+// Every stored ledger sits under its creator's key, lists each denom once, and has no negative lock-up.
+//@ rowinv C12/ledgerKey table commitment:types.GetCommitmentsKey row types.Commitments : unbech32(row.Creator) == key0
+//@ rowinv C12/ledgerUniqueDenoms table commitment:types.GetCommitmentsKey row types.Commitments : uniqueDenoms(row)
+//@ rowinv C12/ledgerLockupsNonNegative table commitment:types.GetCommitmentsKey row types.Commitments : lockupsNonNegative(row)
+
+//@ aggregate claimedTotal(d) table commitment:types.GetCommitmentsKey row types.Commitments value amt(row.Claimed, d)
+
+// custody of bank-backed denoms: module balance - Σ committed - Σ claimed (must never go down)
+//@ define c12CustodyGap(ctx, d) := bal(ctx, modAddr("commitment"), d) - committedTotal(ctx, d) - claimedTotal(ctx, d)
+
+// Eden and EdenB commits run the SDK's staking/distribution hooks (outside the verified
+// subset, read as "anything may change"), so the ledger equations are proved for every other denom.
+//@ func (Keeper).CommitLiquidTokens
+//@ forall d Str
+//@ requires amount >= 0
+//@ requires addr != modAddr("commitment")
+//@ ensures C12/total-committed: err == nil && denom != ptypes.Eden && denom != ptypes.EdenB ==> c12TotalGap(ctx, d) == old(c12TotalGap(ctx, d))
+//@ ensures C12/account-delta: err == nil && denom != ptypes.Eden && denom != ptypes.EdenB ==> committedOf(k.GetCommitments(ctx, addr), d) == old(committedOf(k.GetCommitments(ctx, addr), d)) + ite(d == denom, amount, 0)
+//@ ensures C12/custody: err == nil && denom != ptypes.Eden && denom != ptypes.EdenB ==> c12CustodyGap(ctx, d) == old(c12CustodyGap(ctx, d))
+
+// UncommitTokens: the account's amount and the sum go down by exactly `amount`, the lock is
+// respected, custody follows. Params.TotalCommitted is the known defect (see known_findings).
+//@ func (Keeper).UncommitTokens
+//@ forall d Str
+//@ requires amount >= 0
+//@ requires addr != modAddr("commitment")
+//@ ensures C12/account-delta: err == nil && denom != ptypes.Eden && denom != ptypes.EdenB ==> committedOf(k.GetCommitments(ctx, addr), d) == old(committedOf(k.GetCommitments(ctx, addr), d)) - ite(d == denom, amount, 0)
+//@ ensures C12/sum-delta: err == nil && denom != ptypes.Eden && denom != ptypes.EdenB ==> committedTotal(ctx, d) == old(committedTotal(ctx, d)) - ite(d == denom, amount, 0)
+//@ ensures C12/no-overdraw: err == nil && denom != ptypes.Eden && denom != ptypes.EdenB ==> old(committedOf(k.GetCommitments(ctx, addr), denom)) >= amount
+//@ ensures C12/lock-respected: err == nil && !isLiquidation && denom != ptypes.Eden && denom != ptypes.EdenB ==> committedOf(k.GetCommitments(ctx, addr), denom) >= old(lockedFor(k.GetCommitments(ctx, addr), denom, blockTime(ctx)))
+//@ ensures C12/custody: err == nil && denom != ptypes.Eden && denom != ptypes.EdenB ==> c12CustodyGap(ctx, d) == old(c12CustodyGap(ctx, d))
+//@ ensures C12/total-committed: err == nil && denom != ptypes.Eden && denom != ptypes.EdenB ==> c12TotalGap(ctx, d) == old(c12TotalGap(ctx, d))
+//@ ensures C12/known-defect-total-grows-on-uncommit: err == nil && denom != ptypes.Eden && denom != ptypes.EdenB ==> amt(k.GetParams(ctx).TotalCommitted, d) == old(amt(k.GetParams(ctx).TotalCommitted, d)) + ite(d == denom, amount, 0)
